@@ -1,9 +1,1027 @@
-// C20: not built yet (stub so that main.rs is already wired; replace the body, keep the two signatures).
-use crate::util::Sink;
+// C20: alpha-g-chronobox-timestamps — the REAL binary is run on MIDAS files written here.
+//
+// Case lines (the first token is unique to this module):
+//   c20 <cutseed> <board>:<hex>,<board>:<hex>,…      bank payloads ("pieces") in bank order; `-` = no piece at all.
+//        The cut pattern (how every piece is cut further into banks, how banks of different boards interleave,
+//        how banks are grouped into Chronobox events, which decoy banks/events are added, how events are spread
+//        over 1..=3 files (.mid or .mid.lz4), bank format and data type, order of the file arguments) is derived deterministically
+//        from <cutseed> and the pieces; cutseed 0 = every piece is one bank, one event, one file.
+//        The per-board concatenation of the pieces is all the model needs.
+//   c20hw <cutseed> <board>:<ev>;<ev>;…,…            hardware events E<T>.<ch>.<trailing> | M<c> | S<fill>; the
+//        stream of each board is hw_stream(events) (coq/Apps/CbHardware.v re-stated below); one piece per board.
+//   observation: `fail` (non-zero exit and no CSV) | `ok <n> <board>.<channel>.<leading>.<ticks|->…`
+//   rel20time <cutseed> <hw items>   every row of the CSV is the row the generator expects from the true edge times
+//   rel20some <cutseed> <hw items>   (faulted marker sequences) every NON-EMPTY time is the true time of its edge
+//   rel20cut <s1>/<s2>/… <hw items>  the CSV bodies under the cut patterns s1, s2, … are byte-identical
+use crate::util::*;
+use std::cell::RefCell;
+use std::collections::HashMap;
+use std::path::PathBuf;
+use std::process::{Command, Stdio};
 
-pub fn run(_tier: &str, _seed: u64, _s: &mut Sink) {}
+// ---------------------------------------------------------------------------------------------
+// MIDAS writer (midasio 0.5.3 file.rs / event.rs / data_bank.rs), little endian
+// ---------------------------------------------------------------------------------------------
+#[derive(Clone, Debug)]
+struct Bank {
+    name: [u8; 4],
+    dtype: u32,
+    data: Vec<u8>,
+}
+#[derive(Clone, Debug)]
+struct Event {
+    id: u16,
+    mask: u16,
+    serial: u32,
+    ts: u32,
+    fmt: u32, // 1 = BANK16, 17 = BANK32, 49 = BANK32A
+    banks: Vec<Bank>,
+}
+#[derive(Clone, Debug)]
+struct MFile {
+    run: u32,
+    t0: u32,
+    t1: u32,
+    lz4: bool, // written as .mid.lz4 (alpha_g_analysis::read decompresses by extension)
+    events: Vec<Event>,
+}
+
+fn bank_bytes(fmt: u32, b: &Bank, out: &mut Vec<u8>) {
+    out.extend_from_slice(&b.name);
+    match fmt {
+        1 => {
+            out.extend_from_slice(&(b.dtype as u16).to_le_bytes());
+            out.extend_from_slice(&(b.data.len() as u16).to_le_bytes());
+        }
+        17 => {
+            out.extend_from_slice(&b.dtype.to_le_bytes());
+            out.extend_from_slice(&(b.data.len() as u32).to_le_bytes());
+        }
+        _ => {
+            out.extend_from_slice(&b.dtype.to_le_bytes());
+            out.extend_from_slice(&(b.data.len() as u32).to_le_bytes());
+            out.extend_from_slice(&[0xAA; 4]); // reserved
+        }
+    }
+    out.extend_from_slice(&b.data);
+    let pad = (8 - b.data.len() % 8) % 8;
+    out.extend(std::iter::repeat(0xEEu8).take(pad));
+}
+
+fn event_bytes(e: &Event, out: &mut Vec<u8>) {
+    let mut body = Vec::new();
+    for b in &e.banks {
+        bank_bytes(e.fmt, b, &mut body);
+    }
+    out.extend_from_slice(&e.id.to_le_bytes());
+    out.extend_from_slice(&e.mask.to_le_bytes());
+    out.extend_from_slice(&e.serial.to_le_bytes());
+    out.extend_from_slice(&e.ts.to_le_bytes());
+    out.extend_from_slice(&(body.len() as u32 + 8).to_le_bytes()); // event size
+    out.extend_from_slice(&(body.len() as u32).to_le_bytes()); // all banks size
+    out.extend_from_slice(&e.fmt.to_le_bytes()); // flags
+    out.extend_from_slice(&body);
+}
+
+fn file_bytes(f: &MFile) -> Vec<u8> {
+    let mut out = Vec::new();
+    let odb0 = b"<odb begin/>";
+    let odb1 = b"{\"end\":1}";
+    out.extend_from_slice(&0x8000u16.to_le_bytes());
+    out.extend_from_slice(&0x494Du16.to_le_bytes());
+    out.extend_from_slice(&f.run.to_le_bytes());
+    out.extend_from_slice(&f.t0.to_le_bytes());
+    out.extend_from_slice(&(odb0.len() as u32).to_le_bytes());
+    out.extend_from_slice(odb0);
+    for e in &f.events {
+        event_bytes(e, &mut out);
+    }
+    out.extend_from_slice(&0x8001u16.to_le_bytes());
+    out.extend_from_slice(&0x494Du16.to_le_bytes());
+    out.extend_from_slice(&f.run.to_le_bytes());
+    out.extend_from_slice(&f.t1.to_le_bytes());
+    out.extend_from_slice(&(odb1.len() as u32).to_le_bytes());
+    out.extend_from_slice(odb1);
+    out
+}
+
+// ---------------------------------------------------------------------------------------------
+// cut pattern: pieces -> files
+// ---------------------------------------------------------------------------------------------
+type Piece = (u8, Vec<u8>);
+
+fn cbf_name(board: u8) -> [u8; 4] {
+    [b'C', b'B', b'F', b'0' + board]
+}
+
+fn pick_dtype(r: &mut Rng, len: usize) -> u32 {
+    // the binary never looks at the data type; midasio requires len % size == 0
+    if len % 4 == 0 && r.chance(1, 2) {
+        6 // DWORD
+    } else if len % 2 == 0 && r.chance(1, 4) {
+        4 // WORD
+    } else {
+        1 // BYTE
+    }
+}
+
+fn decoy_bank(r: &mut Rng) -> Bank {
+    // names the binary must ignore inside a Chronobox event
+    let name: [u8; 4] = match r.below(6) {
+        0 => *b"CBF5",
+        1 => *b"CBF0",
+        2 => *b"cbf1",
+        3 => *b"CBFS",
+        4 => *b"ATAT",
+        _ => *b"CB01",
+    };
+    let len = r.below(13) as usize;
+    Bank { name, dtype: 1, data: r.bytes(len) }
+}
+
+fn decoy_event(r: &mut Rng, serial: u32) -> Event {
+    // events of another id carrying CBFn banks: must be ignored
+    let id = r.pick(&[1u16, 8, 2, 3, 5, 0, 0x8002, 4 + 256]);
+    let mut banks = Vec::new();
+    for _ in 0..r.below(3) {
+        let len = 4 * r.below(4) as usize;
+        let mut data = r.bytes(len);
+        if len >= 4 {
+            data[3] = 0xFF; // looks like a marker
+        }
+        banks.push(Bank { name: cbf_name(r.range(1, 4) as u8), dtype: 1, data });
+    }
+    Event { id, mask: r.next() as u16, serial, ts: r.next() as u32, fmt: 17, banks }
+}
+
+fn mix(seed: u64, pieces: &[Piece]) -> u64 {
+    // the pattern depends on the seed and on the shape of the pieces only
+    let mut h = seed ^ 0xC20C20;
+    for (b, d) in pieces {
+        h = h.wrapping_mul(0x100000001B3).wrapping_add(*b as u64 + 31 * d.len() as u64);
+    }
+    h
+}
+
+fn plan(seed: u64, pieces: &[Piece]) -> (Vec<MFile>, Vec<usize>) {
+    let run = 9000 + (seed % 1000) as u32;
+    if seed == 0 {
+        let banks = pieces
+            .iter()
+            .map(|(b, d)| Bank { name: cbf_name(*b), dtype: 1, data: d.clone() })
+            .collect();
+        let ev = Event { id: 4, mask: 0, serial: 0, ts: 0, fmt: 17, banks };
+        return (vec![MFile { run, t0: 100, t1: 100, lz4: false, events: vec![ev] }], vec![0]);
+    }
+    let mut r = Rng::new(mix(seed, pieces));
+    // 1. every piece is cut into banks; per-board queues keep the order
+    let mode = r.below(6);
+    let mut queues: Vec<Vec<Vec<u8>>> = vec![Vec::new(); 5];
+    for (b, d) in pieces {
+        let q = &mut queues[*b as usize];
+        let n = d.len();
+        let mut cuts: Vec<usize> = match mode {
+            0 => vec![],                                                       // no further cut
+            1 => (0..r.below(3)).map(|_| r.below(n as u64 + 1) as usize).collect(), // a few byte cuts
+            2 => (0..r.below(8)).map(|_| 4 * r.below(n as u64 / 4 + 1) as usize).collect(), // word cuts
+            3 => (0..r.below(12)).map(|_| r.below(n as u64 + 1) as usize).collect(),
+            4 => {
+                // cuts just around every element boundary of a scaler block / word
+                (0..r.below(6)).map(|_| (4 * r.below(n as u64 / 4 + 1) + r.below(4)) as usize).collect()
+            }
+            _ => {
+                if n <= 80 {
+                    (1..n).collect() // one byte per bank
+                } else {
+                    (0..20).map(|_| r.below(n as u64 + 1) as usize).collect()
+                }
+            }
+        };
+        cuts.retain(|&c| c <= n);
+        cuts.sort();
+        let mut prev = 0;
+        for c in cuts {
+            q.push(d[prev..c].to_vec()); // empty banks are allowed and kept
+            prev = c;
+        }
+        q.push(d[prev..].to_vec());
+    }
+    // 2. random merge preserving the order inside every board
+    let mut seq: Vec<Bank> = Vec::new();
+    let mut heads = [0usize; 5];
+    loop {
+        let live: Vec<usize> = (1..5).filter(|&b| heads[b] < queues[b].len()).collect();
+        if live.is_empty() {
+            break;
+        }
+        let b = if r.chance(2, 3) { live[0] } else { r.pick(&live) };
+        let data = queues[b][heads[b]].clone();
+        heads[b] += 1;
+        let dtype = pick_dtype(&mut r, data.len());
+        seq.push(Bank { name: cbf_name(b as u8), dtype, data });
+    }
+    // 3. banks -> Chronobox events, decoys in between
+    let mut events: Vec<Event> = Vec::new();
+    let mut serial = r.next() as u32;
+    let mut i = 0;
+    let decoys = r.chance(3, 4);
+    while i < seq.len() || events.is_empty() {
+        if decoys && r.chance(1, 3) {
+            events.push(decoy_event(&mut r, serial));
+            serial = serial.wrapping_add(1);
+        }
+        let k = match r.below(5) {
+            0 => 0,
+            1 | 2 => 1,
+            3 => 2,
+            _ => r.range(1, 6) as usize,
+        };
+        let k = k.min(seq.len() - i);
+        let mut banks: Vec<Bank> = Vec::new();
+        for b in &seq[i..i + k] {
+            if decoys && r.chance(1, 5) {
+                banks.push(decoy_bank(&mut r));
+            }
+            banks.push(b.clone());
+        }
+        if decoys && r.chance(1, 5) {
+            banks.push(decoy_bank(&mut r));
+        }
+        i += k;
+        let mut fmt = r.pick(&[17u32, 17, 17, 1, 49]);
+        if banks.iter().any(|b| b.data.len() > 60000) {
+            fmt = 17;
+        }
+        events.push(Event { id: 4, mask: r.next() as u16, serial, ts: r.next() as u32, fmt, banks });
+        serial = serial.wrapping_add(1);
+        if i >= seq.len() {
+            break;
+        }
+    }
+    if decoys && r.chance(1, 3) {
+        events.push(decoy_event(&mut r, serial));
+    }
+    // 4. events -> 1..=3 files of one run; t0 strictly increasing, t0(next) - t1(prev) <= 1
+    let nfiles = r.range(1, 3) as usize;
+    let mut bounds: Vec<usize> = (0..nfiles - 1).map(|_| r.below(events.len() as u64 + 1) as usize).collect();
+    bounds.sort();
+    bounds.push(events.len());
+    let mut files = Vec::new();
+    let mut t = r.pick(&[0u32, 1, 1_700_000_000, u32::MAX - 10]);
+    let mut prev = 0;
+    for (fi, &bnd) in bounds.iter().enumerate() {
+        let d = r.below(3) as u32; // duration of the file
+        let t0 = t;
+        let t1 = t0 + d;
+        files.push(MFile { run, t0, t1, lz4: r.chance(1, 5), events: events[prev..bnd].to_vec() });
+        prev = bnd;
+        let gap = if d == 0 { 1 } else { r.below(2) as u32 };
+        t = t1 + gap;
+        let _ = fi;
+    }
+    // order of the file arguments
+    let mut order: Vec<usize> = (0..files.len()).collect();
+    for i in (1..order.len()).rev() {
+        let j = r.below(i as u64 + 1) as usize;
+        order.swap(i, j);
+    }
+    (files, order)
+}
+
+// ---------------------------------------------------------------------------------------------
+// running the real binary
+// ---------------------------------------------------------------------------------------------
+#[derive(Clone, Debug)]
+struct RunOut {
+    exit_ok: bool,
+    csv: Option<Vec<u8>>, // the CSV without its two comment lines
+    raw_head_ok: bool,
+}
+
+thread_local! {
+    static CACHE: RefCell<HashMap<String, RunOut>> = RefCell::new(HashMap::new());
+    static COUNTER: RefCell<u64> = RefCell::new(0);
+}
+
+fn scratch_root() -> PathBuf {
+    let args: Vec<String> = std::env::args().collect();
+    let base = if args.get(1).map(|s| s.as_str()) == Some("gen") && args.len() >= 6 {
+        PathBuf::from(&args[5])
+    } else {
+        std::env::temp_dir()
+    };
+    base.join(format!("c20-scratch-{}", std::process::id()))
+}
+
+fn binary() -> PathBuf {
+    let dir = std::env::var("VERIF_ANALYSIS_BIN").unwrap_or_else(|_| {
+        // replay / obs mode outside the driver: the driver's default location
+        let exe = std::env::current_exe().unwrap();
+        // …/.build/cargo-apps/release/vapps -> …/.build/cargo-analysis/release
+        exe.parent().unwrap().parent().unwrap().parent().unwrap().join("cargo-analysis/release").to_string_lossy().into_owned()
+    });
+    PathBuf::from(dir).join("alpha-g-chronobox-timestamps")
+}
+
+fn pieces_key(seed: u64, pieces: &[Piece]) -> String {
+    let items: Vec<String> = pieces.iter().map(|(b, d)| format!("{}:{}", b, hex(d))).collect();
+    format!("{} {}", seed, if items.is_empty() { "-".to_string() } else { items.join(",") })
+}
+
+fn run_binary(seed: u64, pieces: &[Piece]) -> RunOut {
+    let key = pieces_key(seed, pieces);
+    if let Some(o) = CACHE.with(|c| c.borrow().get(&key).cloned()) {
+        return o;
+    }
+    let n = COUNTER.with(|c| {
+        *c.borrow_mut() += 1;
+        *c.borrow()
+    });
+    let root = scratch_root();
+    let dir = root.join(format!("r{n}"));
+    std::fs::create_dir_all(&dir).unwrap();
+    let (files, order) = plan(seed, pieces);
+    let mut paths = Vec::new();
+    for (i, f) in files.iter().enumerate() {
+        let p = dir.join(format!("run{:05}sub{:03}.mid{}", f.run, i, if f.lz4 { ".lz4" } else { "" }));
+        if f.lz4 {
+            use std::io::Write;
+            let mut enc = lz4::EncoderBuilder::new().level(1).build(std::fs::File::create(&p).unwrap()).unwrap();
+            enc.write_all(&file_bytes(f)).unwrap();
+            let (_w, res) = enc.finish();
+            res.unwrap();
+        } else {
+            std::fs::write(&p, file_bytes(f)).unwrap();
+        }
+        paths.push(p);
+    }
+    let out = dir.join("out");
+    let csv_path = dir.join("out.csv");
+    let mut cmd = Command::new(binary());
+    cmd.arg("-o").arg(&out);
+    for &i in &order {
+        cmd.arg(&paths[i]);
+    }
+    let status = cmd
+        .current_dir(&dir)
+        .stdin(Stdio::null())
+        .stdout(Stdio::null())
+        .stderr(Stdio::null())
+        .status()
+        .expect("cannot run alpha-g-chronobox-timestamps (VERIF_ANALYSIS_BIN)");
+    let raw = std::fs::read(&csv_path).ok();
+    // any other file created by the run counts as "a CSV was written"
+    let stray = std::fs::read_dir(&dir)
+        .unwrap()
+        .filter_map(|e| e.ok())
+        .any(|e| {
+            let n = e.file_name().to_string_lossy().into_owned();
+            !n.ends_with(".mid") && !n.ends_with(".mid.lz4") && n != "out.csv"
+        });
+    let (csv, head_ok) = match raw {
+        None => (if stray { Some(b"<stray file>".to_vec()) } else { None }, true),
+        Some(raw) => {
+            // two comment lines: "# <pkg> <version>\n# <command line>\n"
+            let mut pos = 0;
+            let mut ok = true;
+            for _ in 0..2 {
+                if raw.get(pos) != Some(&b'#') {
+                    ok = false;
+                    break;
+                }
+                match raw[pos..].iter().position(|&c| c == b'\n') {
+                    Some(k) => pos += k + 1,
+                    None => {
+                        ok = false;
+                        break;
+                    }
+                }
+            }
+            (Some(raw[pos..].to_vec()), ok)
+        }
+    };
+    let _ = std::fs::remove_dir_all(&dir);
+    let _ = std::fs::remove_dir(&root); // succeeds only when empty
+    let o = RunOut { exit_ok: status.success(), csv, raw_head_ok: head_ok };
+    CACHE.with(|c| c.borrow_mut().insert(key, o.clone()));
+    o
+}
+
+#[derive(Clone, Debug, PartialEq)]
+struct CsvRow {
+    board: u8,
+    channel: u8,
+    leading: bool,
+    ticks: Option<u64>,
+}
+
+const FREQ: f64 = 10e6;
+
+/// parse the CSV body; Err(text) when it is not what the serializer of `Row` can have written
+fn parse_csv(body: &[u8]) -> Result<Vec<CsvRow>, String> {
+    let text = std::str::from_utf8(body).map_err(|_| "csv-not-utf8".to_string())?;
+    if text.is_empty() {
+        return Ok(vec![]); // no row: the header is written with the first row
+    }
+    if !text.ends_with('\n') {
+        return Err("csv-no-final-newline".into());
+    }
+    let mut lines = text[..text.len() - 1].split('\n');
+    if lines.next() != Some("board,channel,leading_edge,chronobox_time") {
+        return Err("csv-bad-header".into());
+    }
+    let mut rows = Vec::new();
+    for l in lines {
+        let f: Vec<&str> = l.split(',').collect();
+        if f.len() != 4 {
+            return Err(format!("csv-bad-row[{l}]"));
+        }
+        let board = match f[0] {
+            "cb01" => 1,
+            "cb02" => 2,
+            "cb03" => 3,
+            "cb04" => 4,
+            _ => return Err(format!("csv-bad-board[{l}]")),
+        };
+        let channel: u8 = f[1].parse().map_err(|_| format!("csv-bad-channel[{l}]"))?;
+        let leading = match f[2] {
+            "true" => true,
+            "false" => false,
+            _ => return Err(format!("csv-bad-edge[{l}]")),
+        };
+        let ticks = if f[3].is_empty() {
+            None
+        } else {
+            let x: f64 = f[3].parse().map_err(|_| format!("csv-bad-time[{l}]"))?;
+            let t = (x * FREQ).round();
+            if !(t >= 0.0 && t < 9.0e15) {
+                return Err(format!("csv-time-out-of-range[{l}]"));
+            }
+            let t = t as u64;
+            // the printed text must be exactly the shortest representation of `ticks as f64 / 10e6`
+            // (ryu and `{:?}` agree for 1e-5 <= x < 1e16, and 0.0)
+            let expect = format!("{:?}", t as f64 / FREQ);
+            if expect != f[3] || (t as f64 / FREQ).to_bits() != x.to_bits() {
+                return Err(format!("csv-time-not-ticks/10e6[{l}]"));
+            }
+            Some(t)
+        };
+        rows.push(CsvRow { board, channel, leading, ticks });
+    }
+    Ok(rows)
+}
+
+fn outcome(o: &RunOut) -> Result<Option<Vec<CsvRow>>, String> {
+    match (o.exit_ok, &o.csv) {
+        (false, None) => Ok(None),
+        (false, Some(_)) => Err("fail-but-csv-written".into()),
+        (true, None) => Err("exit0-without-csv".into()),
+        (true, Some(body)) => {
+            if !o.raw_head_ok {
+                return Err("csv-bad-comment-lines".into());
+            }
+            parse_csv(body).map(Some)
+        }
+    }
+}
+
+fn observation(o: &RunOut) -> String {
+    match outcome(o) {
+        Err(e) => e,
+        Ok(None) => "fail".into(),
+        Ok(Some(rows)) => {
+            let mut s = format!("ok {}", rows.len());
+            for r in rows {
+                s.push_str(&format!(
+                    " {}.{}.{}.{}",
+                    r.board,
+                    r.channel,
+                    r.leading as u8,
+                    r.ticks.map(|t| t.to_string()).unwrap_or_else(|| "-".into())
+                ));
+            }
+            s
+        }
+    }
+}
+
+// ---------------------------------------------------------------------------------------------
+// hardware model (coq/Apps/CbHardware.v re-stated) and its generator
+// ---------------------------------------------------------------------------------------------
+const HALF: u64 = 1 << 23;
+const TURN: u64 = 1 << 24;
+
+#[derive(Clone, Debug, PartialEq)]
+enum Hw {
+    Edge { t: u64, ch: u8, trailing: bool },
+    Marker(u64),
+    Scalers(u8),
+}
+
+fn scalers_body(fill: u8) -> Vec<u8> {
+    (0..240u32).map(|i| ((fill as u32 + 7 * i) & 255) as u8).collect()
+}
+
+fn hw_stream(evs: &[Hw]) -> Vec<u8> {
+    let mut v = Vec::new();
+    for e in evs {
+        match e {
+            Hw::Edge { t, ch, trailing } => {
+                let w = ((128 + *ch as u64) << 24) | ((t % TURN) & !1) | (*trailing as u64);
+                v.extend_from_slice(&(w as u32).to_le_bytes());
+            }
+            Hw::Marker(c) => {
+                let w = (255u64 << 24) | ((c % 2) << 23) | (c % HALF);
+                v.extend_from_slice(&(w as u32).to_le_bytes());
+            }
+            Hw::Scalers(f) => {
+                v.extend_from_slice(&[0x3C, 0, 0, 0xFE]);
+                v.extend(scalers_body(*f));
+            }
+        }
+    }
+    v
+}
+
+fn hw_fmt(evs: &[Hw]) -> String {
+    let v: Vec<String> = evs
+        .iter()
+        .map(|e| match e {
+            Hw::Edge { t, ch, trailing } => format!("E{}.{}.{}", t, ch, *trailing as u8),
+            Hw::Marker(c) => format!("M{c}"),
+            Hw::Scalers(f) => format!("S{f}"),
+        })
+        .collect();
+    v.join(";")
+}
+
+fn hw_parse(s: &str) -> Vec<Hw> {
+    if s.is_empty() {
+        return vec![];
+    }
+    s.split(';')
+        .map(|e| match e.as_bytes()[0] {
+            b'E' => {
+                let f: Vec<&str> = e[1..].split('.').collect();
+                Hw::Edge { t: f[0].parse().unwrap(), ch: f[1].parse().unwrap(), trailing: f[2] == "1" }
+            }
+            b'M' => Hw::Marker(e[1..].parse().unwrap()),
+            _ => Hw::Scalers(e[1..].parse().unwrap()),
+        })
+        .collect()
+}
+
+type HwBoards = Vec<(u8, Vec<Hw>)>;
+
+fn hw_items(boards: &HwBoards) -> String {
+    if boards.is_empty() {
+        return "-".into();
+    }
+    let v: Vec<String> = boards.iter().map(|(b, e)| format!("{}:{}", b, hw_fmt(e))).collect();
+    v.join(",")
+}
+fn hw_items_parse(s: &str) -> HwBoards {
+    if s == "-" {
+        return vec![];
+    }
+    s.split(',')
+        .map(|it| {
+            let (b, e) = it.split_once(':').unwrap();
+            (b.parse().unwrap(), hw_parse(e))
+        })
+        .collect()
+}
+fn hw_pieces(boards: &HwBoards) -> Vec<Piece> {
+    boards.iter().map(|(b, e)| (*b, hw_stream(e))).collect()
+}
+
+/// what the generator knows: for every edge after the first marker of the sequence (in FIFO order) the channel, edge,
+/// and the true time when the edge lies in the window of its neighbours and a later marker exists.
+/// `k` counts the markers seen so far; the windows are those of a fault-free marker sequence 0, 1, 2, …
+fn hw_truth(board: u8, evs: &[Hw]) -> Vec<(CsvRow, u64)> {
+    let mut k = 0u64;
+    let mut out = Vec::new();
+    for (i, e) in evs.iter().enumerate() {
+        match e {
+            Hw::Marker(_) => k += 1,
+            Hw::Scalers(_) => {}
+            Hw::Edge { t, ch, trailing } => {
+                if k == 0 {
+                    continue;
+                }
+                let later = evs[i + 1..].iter().any(|x| matches!(x, Hw::Marker(_)));
+                let inside = k * HALF <= *t && *t < (k + 1) * HALF;
+                let truth = *t & !1;
+                out.push((
+                    CsvRow { board, channel: *ch, leading: !*trailing, ticks: if later && inside { Some(truth) } else { None } },
+                    truth,
+                ));
+            }
+        }
+    }
+    out
+}
+
+fn gen_edge(r: &mut Rng, k: u64) -> Hw {
+    let lo = k * HALF;
+    let hi = (k + 1) * HALF;
+    let d = r.below(7) as i64 - 3;
+    let t: i64 = match r.below(12) {
+        0 | 1 => lo as i64 + d,                                   // within 3 ticks of the previous marker
+        2 | 3 => hi as i64 + d,                                   // within 3 ticks of the next marker
+        4 => lo as i64 - HALF as i64,                             // extreme displacement (earliest)
+        5 => hi as i64 + HALF as i64 - 1,                         // extreme displacement (latest)
+        6 => lo as i64 - 1 - r.below(HALF) as i64,                // displaced: belongs before the previous marker
+        7 => hi as i64 + r.below(HALF) as i64,                    // displaced: belongs after the next marker
+        8 => (lo + HALF / 2) as i64 + d,
+        _ => (lo + r.below(HALF)) as i64,
+    };
+    // keep the displacement hypothesis: lo - HALF <= t < hi + HALF, t >= 0
+    let t = t.max(lo as i64 - HALF as i64).max(0).min(hi as i64 + HALF as i64 - 1) as u64;
+    let ch = match r.below(5) {
+        0 => 0,
+        1 => 58,
+        _ => r.below(59) as u8,
+    };
+    Hw::Edge { t, ch, trailing: r.chance(1, 2) }
+}
+
+/// a well-formed hardware sequence with `markers` markers (0..=markers-1)
+fn gen_hw(r: &mut Rng, markers: u64, density: u64) -> Vec<Hw> {
+    let mut v = Vec::new();
+    for k in 0..=markers {
+        let n = r.below(density + 1);
+        for _ in 0..n {
+            if r.chance(1, 6) {
+                v.push(Hw::Scalers(r.next() as u8));
+            }
+            v.push(gen_edge(r, k));
+        }
+        if r.chance(1, 8) {
+            v.push(Hw::Scalers(r.next() as u8));
+        }
+        if k < markers {
+            v.push(Hw::Marker(k));
+        }
+    }
+    v
+}
+
+// ---------------------------------------------------------------------------------------------
+// case emitters
+// ---------------------------------------------------------------------------------------------
+fn parse_pieces(s: &str) -> Vec<Piece> {
+    if s == "-" {
+        return vec![];
+    }
+    s.split(',')
+        .map(|it| {
+            let (b, h) = it.split_once(':').unwrap();
+            (b.parse().unwrap(), unhex(h))
+        })
+        .collect()
+}
+
+fn emit_bytes(s: &mut Sink, label: &str, seed: u64, pieces: &[Piece]) {
+    let o = run_binary(seed, pieces);
+    s.put(&format!("c20 {}", pieces_key(seed, pieces)), &observation(&o), label, !pieces.is_empty());
+}
+
+fn check_truth(seed: u64, boards: &HwBoards, full: bool) -> String {
+    let o = run_binary(seed, &hw_pieces(boards));
+    let rows = match outcome(&o) {
+        Err(e) => return format!("fails {e}"),
+        Ok(None) => {
+            // refusing is never a wrong time; for fault-free sequences it is expected exactly when a board has no marker
+            let expect_fail = boards.iter().any(|(_, e)| !e.iter().any(|x| matches!(x, Hw::Marker(_))));
+            return if !full || expect_fail { "holds".into() } else { "fails unexpected-refusal".into() };
+        }
+        Ok(Some(rows)) => rows,
+    };
+    let mut truth = Vec::new();
+    let mut bs = boards.clone();
+    bs.sort_by_key(|(b, _)| *b);
+    for (b, e) in &bs {
+        truth.extend(hw_truth(*b, e));
+    }
+    if full {
+        if rows.len() != truth.len() {
+            return format!("fails rows {} expected {}", rows.len(), truth.len());
+        }
+        for (i, (r, (t, _))) in rows.iter().zip(truth.iter()).enumerate() {
+            if r != t {
+                return format!("fails row {i}: {:?} expected {:?}", r, t);
+            }
+        }
+        "holds".into()
+    } else {
+        // faulted marker sequence: rows still correspond one-to-one to the edges after the first counter-0 marker;
+        // the program may give fewer times, never a wrong one. Align from the end (rows before marker 0 are skipped).
+        if rows.len() > truth.len() {
+            return format!("fails rows {} > edges {}", rows.len(), truth.len());
+        }
+        let off = truth.len() - rows.len();
+        if bs.len() != 1 {
+            return "fails rel20some needs one board".into();
+        }
+        for (i, r) in rows.iter().enumerate() {
+            let (t, true_time) = &truth[off + i];
+            if r.channel != t.channel || r.leading != t.leading {
+                return format!("fails row {i} is not edge {}", off + i);
+            }
+            if let Some(x) = r.ticks {
+                if x != *true_time {
+                    return format!("fails row {i}: time {x} but the edge was at {true_time}");
+                }
+            }
+        }
+        "holds".into()
+    }
+}
+
+fn check_cuts(seeds: &[u64], pieces: &[Piece]) -> String {
+    let first = run_binary(seeds[0], pieces);
+    for &s in &seeds[1..] {
+        let o = run_binary(s, pieces);
+        if o.exit_ok != first.exit_ok || o.csv != first.csv {
+            return format!("fails cut pattern {} differs from {}", s, seeds[0]);
+        }
+    }
+    "holds".into()
+}
+
+fn emit_hw(s: &mut Sink, label: &str, seed: u64, boards: &HwBoards) {
+    let o = run_binary(seed, &hw_pieces(boards));
+    let items = hw_items(boards);
+    s.put(&format!("c20hw {} {}", seed, items), &observation(&o), label, !boards.is_empty());
+    s.put(&format!("rel20time {} {}", seed, items), &check_truth(seed, boards, true), "rel-true-time", !boards.is_empty());
+}
+
+fn emit_cut_rel(s: &mut Sink, seeds: &[u64], boards: &HwBoards) {
+    let ss: Vec<String> = seeds.iter().map(|x| x.to_string()).collect();
+    s.put(
+        &format!("rel20cut {} {}", ss.join("/"), hw_items(boards)),
+        &check_cuts(seeds, &hw_pieces(boards)),
+        "rel-cut-invariance",
+        !boards.is_empty(),
+    );
+}
+
+fn ts_word(ch: u8, t: u32, trailing: bool) -> [u8; 4] {
+    ((((0x80 | ch as u32) << 24) | (t & 0xFFFFFE)) | trailing as u32).to_le_bytes()
+}
+fn mk_word(top: bool, c: u32) -> [u8; 4] {
+    ((0xFFu32 << 24) | ((top as u32) << 23) | (c & 0x7FFFFF)).to_le_bytes()
+}
+
+pub fn run(tier: &str, seed: u64, s: &mut Sink) {
+    let mut r = Rng::new(seed ^ 0xC20);
+    let thorough = tier == "thorough";
+    let reps = if thorough { 12 } else { 1 };
+    let mut cutseed = move |r: &mut Rng| 1 + r.below(1 << 40);
+
+    // ---- A. hardware-model streams: 0..=8 wraps x 1..=4 boards, three cut patterns each
+    for rep in 0..reps {
+        for wraps in 0..=8u64 {
+            for nb in 1..=4usize {
+                // which boards take part: any subset of size nb, listed ascending
+                let mut ids = vec![1u8, 2, 3, 4];
+                while ids.len() > nb {
+                    let i = r.below(ids.len() as u64) as usize;
+                    ids.remove(i);
+                }
+                let density = if nb >= 3 || wraps >= 6 { 2 } else { 3 };
+                let boards: HwBoards = ids
+                    .iter()
+                    .map(|&b| {
+                        // `wraps` full turns: 2*wraps markers, or one more (stream ends in the first half of a turn)
+                        let markers = 2 * wraps + r.below(2);
+                        (b, gen_hw(&mut r, markers, density))
+                    })
+                    .collect();
+                let seeds = [if rep == 0 && nb == 1 { 0 } else { cutseed(&mut r) }, cutseed(&mut r), cutseed(&mut r)];
+                for &cs in &seeds {
+                    emit_hw(s, "hw-stream", cs, &boards);
+                }
+                emit_cut_rel(s, &seeds, &boards);
+            }
+        }
+    }
+
+    // ---- A2. deterministic sweep over 8 full wraps: in every window, edges at every offset -3..=3 around both of
+    //          its markers, at the two extreme displacements and mid-window; all in one stream per variant
+    for variant in 0..2u64 {
+        let markers = 17 + variant;
+        let mut evs = Vec::new();
+        let mut n = 0u64;
+        for k in 0..=markers {
+            let lo = (k * HALF) as i64;
+            let hi = ((k + 1) * HALF) as i64;
+            let mut ts: Vec<i64> = Vec::new();
+            for d in -3..=3 {
+                ts.push(lo + d);
+                ts.push(hi + d);
+            }
+            ts.push(lo - HALF as i64);
+            ts.push(hi + HALF as i64 - 1);
+            ts.push(lo + (HALF / 2) as i64);
+            if variant == 1 {
+                ts.reverse();
+                evs.push(Hw::Scalers(k as u8));
+            }
+            for t in ts {
+                if t >= 0 {
+                    n += 1;
+                    evs.push(Hw::Edge { t: t as u64, ch: (n % 59) as u8, trailing: n % 3 == 0 });
+                }
+            }
+            if k < markers {
+                evs.push(Hw::Marker(k));
+            }
+        }
+        let boards: HwBoards = vec![(1 + 2 * variant as u8, evs)];
+        let seeds = [cutseed(&mut r), cutseed(&mut r)];
+        for &cs in &seeds {
+            emit_hw(s, "hw-boundary-sweep", cs, &boards);
+        }
+        emit_cut_rel(s, &seeds, &boards);
+    }
+
+    // ---- B. single faults on hardware streams (one board)
+    let n_fault = if thorough { 600 } else { 56 };
+    for i in 0..n_fault {
+        let markers = r.range(1, 7);
+        let evs = gen_hw(&mut r, markers, 2);
+        let b = r.range(1, 4) as u8;
+        let mpos: Vec<usize> = evs.iter().enumerate().filter(|(_, e)| matches!(e, Hw::Marker(_))).map(|(i, _)| i).collect();
+        let cs = cutseed(&mut r);
+        match i % 4 {
+            0 => {
+                // dropped marker
+                let mut f = evs.clone();
+                f.remove(r.pick(&mpos));
+                let boards = vec![(b, f)];
+                let o = run_binary(cs, &hw_pieces(&boards));
+                s.put(&format!("c20hw {} {}", cs, hw_items(&boards)), &observation(&o), "fault-dropped-marker", true);
+                s.put(&format!("rel20some {} {}", cs, hw_items(&boards)), &check_truth(cs, &boards, false), "rel-fault-no-wrong-time", true);
+            }
+            1 => {
+                // duplicated marker (immediately, or re-inserted a little later)
+                let mut f = evs.clone();
+                let p = r.pick(&mpos);
+                let at = (p + 1 + r.below(3) as usize).min(f.len());
+                f.insert(at, evs[p].clone());
+                let boards = vec![(b, f)];
+                let o = run_binary(cs, &hw_pieces(&boards));
+                s.put(&format!("c20hw {} {}", cs, hw_items(&boards)), &observation(&o), "fault-duplicated-marker", true);
+                s.put(&format!("rel20some {} {}", cs, hw_items(&boards)), &check_truth(cs, &boards, false), "rel-fault-no-wrong-time", true);
+            }
+            2 => {
+                // truncated tail
+                let mut bytes = hw_stream(&evs);
+                let cut = match r.below(4) {
+                    0 => 1 + r.below(3) as usize,
+                    1 => 4 * r.below(1 + bytes.len() as u64 / 4) as usize,
+                    _ => r.below(bytes.len() as u64 + 1) as usize,
+                };
+                bytes.truncate(bytes.len().saturating_sub(cut));
+                emit_bytes(s, "fault-truncated-tail", cs, &[(b, bytes)]);
+            }
+            _ => {
+                // corrupted word: one byte replaced, one bit flipped, or a word overwritten by an invalid one
+                let mut bytes = hw_stream(&evs);
+                if bytes.is_empty() {
+                    bytes = mk_word(false, 0).to_vec();
+                }
+                let p = r.below(bytes.len() as u64) as usize;
+                match r.below(4) {
+                    0 => bytes[p] = r.next() as u8,
+                    1 => bytes[p] ^= 1 << r.below(8),
+                    2 => bytes[p | 3] = r.pick(&[0x00u8, 0x7F, 0x80 + 59, 0xFE, 0xBB]),
+                    _ => bytes[p | 3] ^= 0x80,
+                }
+                emit_bytes(s, "fault-corrupted-word", cs, &[(b, bytes)]);
+            }
+        }
+    }
+
+    // ---- C. structural cases
+    let m0 = mk_word(false, 0);
+    let base: Vec<u8> = [
+        &ts_word(3, 0x100, false)[..],
+        &m0,
+        &ts_word(5, 0x800010, false),
+        &ts_word(6, 0x800020, true),
+        &mk_word(true, 1),
+        &ts_word(7, 0x30, false),
+        &mk_word(false, 2),
+        &ts_word(8, 0x800040, false),
+        &ts_word(9, 0x800050, false), // F4: the last timestamp of the stream
+    ]
+    .concat();
+    for cs in [0, 1, 2, 3] {
+        emit_bytes(s, "struct-no-chronobox-bank", cs, &[]);
+        emit_bytes(s, "struct-f4-last-timestamp", cs, &[(1, base.clone())]);
+    }
+    emit_bytes(s, "struct-empty-board", 0, &[(2, vec![])]);
+    emit_bytes(s, "struct-empty-board", 5, &[(1, base.clone()), (3, vec![])]);
+    emit_bytes(s, "struct-pieces", 0, &[(2, base[..10].to_vec()), (1, base.clone()), (2, base[10..].to_vec())]);
+    emit_bytes(s, "struct-pieces", 7, &[(4, base[..3].to_vec()), (4, base[3..9].to_vec()), (1, m0.to_vec()), (4, base[9..].to_vec())]);
+    // only scaler blocks; scaler block only; no marker at all
+    emit_bytes(s, "struct-no-marker", 0, &[(1, hw_stream(&[Hw::Scalers(1)]))]);
+    emit_bytes(s, "struct-no-marker", 9, &[(1, ts_word(1, 2, false).to_vec())]);
+    // first marker is not counter 0 / counter 0 later / counter 0 twice / counter 0 with the top bit set
+    let t1 = ts_word(11, 0x800100, true);
+    let t2 = ts_word(12, 0x000200, false);
+    for (label, words) in [
+        ("struct-starts-at-marker-1", vec![&mk_word(true, 1)[..], &t2, &mk_word(false, 2), &t1, &mk_word(true, 3)]),
+        ("struct-marker0-later", vec![&mk_word(true, 5), &t2, &mk_word(false, 6), &t1, &m0, &t1, &mk_word(true, 1), &t2, &mk_word(false, 2)]),
+        ("struct-marker0-twice", vec![&m0, &t1, &mk_word(true, 1), &t2, &m0, &t1, &mk_word(true, 1), &t2, &mk_word(false, 2)]),
+        ("struct-bad-first-marker", vec![&mk_word(true, 0), &t2, &mk_word(false, 1), &t1, &mk_word(true, 2)]),
+        ("struct-bad-first-marker", vec![&t1, &mk_word(true, 0), &m0, &t1, &mk_word(true, 1)]),
+        ("struct-same-top-bit", vec![&m0, &t1, &mk_word(false, 1), &t1, &mk_word(true, 2), &t2, &mk_word(false, 3)]),
+        ("struct-marker-only", vec![&m0]),
+        ("struct-marker-only", vec![&m0, &mk_word(true, 1), &mk_word(false, 2)]),
+        // 23-bit counter exhausted: 2^23-1 + 1 is never a counter value
+        ("struct-counter-wrap", vec![&m0, &t1, &mk_word(true, 0x7FFFFF), &t2, &m0, &t1, &mk_word(true, 1)]),
+        ("struct-counter-wrap", vec![&m0, &t1, &mk_word(true, 0x7FFFFD), &t2, &mk_word(false, 0x7FFFFE), &t1, &mk_word(true, 0x7FFFFF), &t2, &mk_word(false, 0)]),
+    ] {
+        let bytes: Vec<u8> = words.concat();
+        let cs = cutseed(&mut r);
+        emit_bytes(s, label, cs, &[(r.range(1, 4) as u8, bytes)]);
+    }
+    // one good board, one bad board: the whole run fails
+    emit_bytes(s, "struct-one-bad-board", cutseed(&mut r), &[(1, base.clone()), (2, base[..base.len() - 1].to_vec())]);
+    emit_bytes(s, "struct-one-bad-board", cutseed(&mut r), &[(3, base[4..].to_vec()), (4, base[8..].to_vec())]);
+    // large epoch: counters near the top of the 23-bit range give times near 2^47 ticks
+    for c in [0x7FFFFCu32, 0x3FFFFF, 0x100000, 1001] {
+        let top = c % 2 == 1;
+        let ts_in = if top { 0x000123 } else { 0xFFFFFE };
+        let words = [&m0[..], &mk_word(top, c), &ts_word(58, ts_in, true), &ts_word(0, ts_in ^ 0x800000, false), &mk_word(!top, c + 1)];
+        emit_bytes(s, "struct-large-epoch", cutseed(&mut r), &[(1, words.concat())]);
+    }
+
+    // ---- D. streams from a word grammar (any counters / top bits / invalid words), several boards
+    let n_rand = if thorough { 800 } else { 50 };
+    for _ in 0..n_rand {
+        let nb = r.range(1, 3) as usize;
+        let mut pieces: Vec<Piece> = Vec::new();
+        for _ in 0..nb {
+            let b = r.range(1, 4) as u8;
+            let mut v = Vec::new();
+            let mut c = if r.chance(3, 4) { 0 } else { r.below(4) as u32 };
+            let mut top = r.chance(1, 8);
+            for _ in 0..r.below(14) {
+                match r.below(12) {
+                    0..=5 => {
+                        let t = match r.below(3) {
+                            0 => r.below(8) as u32,
+                            1 => 0x800000 + r.below(8) as u32 - 4,
+                            _ => r.next() as u32 & 0xFFFFFF,
+                        };
+                        v.extend(ts_word(r.below(59) as u8, t, r.chance(1, 2)));
+                    }
+                    6..=9 => {
+                        v.extend(mk_word(top, c));
+                        if !r.chance(1, 10) {
+                            c += 1;
+                        }
+                        if !r.chance(1, 10) {
+                            top = !top;
+                        }
+                    }
+                    10 => v.extend(hw_stream(&[Hw::Scalers(r.next() as u8)])),
+                    _ => {
+                        if r.chance(1, 4) {
+                            v.extend([r.next() as u8, 0, 0, r.pick(&[0xFEu8, 0x7F, 0xBB, 0xC0])]);
+                        }
+                    }
+                }
+            }
+            pieces.push((b, v));
+        }
+        emit_bytes(s, "word-grammar", cutseed(&mut r), &pieces);
+    }
+    let _ = std::fs::remove_dir_all(scratch_root());
+}
 
 /// implementation observation for a case line of this module (None: not one of mine)
-pub fn observe_line(_line: &str) -> Option<String> {
-    None
+pub fn observe_line(line: &str) -> Option<String> {
+    let f: Vec<&str> = line.split(' ').collect();
+    if f.len() != 3 {
+        return None;
+    }
+    let r = match f[0] {
+        "c20" => observation(&run_binary(f[1].parse().ok()?, &parse_pieces(f[2]))),
+        "c20hw" => observation(&run_binary(f[1].parse().ok()?, &hw_pieces(&hw_items_parse(f[2])))),
+        "rel20time" => check_truth(f[1].parse().ok()?, &hw_items_parse(f[2]), true),
+        "rel20some" => check_truth(f[1].parse().ok()?, &hw_items_parse(f[2]), false),
+        "rel20cut" => {
+            let seeds: Vec<u64> = f[1].split('/').map(|x| x.parse().unwrap()).collect();
+            check_cuts(&seeds, &hw_pieces(&hw_items_parse(f[2])))
+        }
+        _ => return None,
+    };
+    let _ = std::fs::remove_dir_all(scratch_root());
+    Some(r)
 }
